@@ -112,9 +112,16 @@ fn c55_quoting_non_ascii_head() {
     }
 }
 
+/// S8: the hex-escape arm builds its text with format!; that arm is excluded by the harnesses
+/// below, and the formatting machinery is cut out of the model
+fn fmt_stub(_args: std::fmt::Arguments<'_>) -> String {
+    String::new()
+}
+
 // ---- escapes inside quoted atoms (6.4.2.1) ----
 #[kani::proof]
 #[kani::unwind(8)]
+#[kani::stub(alloc::fmt::format, fmt_stub)]
 fn c55_char_to_string_quoted_ascii() {
     let c: u8 = kani::any();
     kani::assume(c < 128);
@@ -147,6 +154,7 @@ fn c55_char_to_string_quoted_ascii() {
 // unquoted context: every printable ASCII char is passed through unchanged
 #[kani::proof]
 #[kani::unwind(8)]
+#[kani::stub(alloc::fmt::format, fmt_stub)]
 fn c55_char_to_string_unquoted_ascii() {
     let c: u8 = kani::any();
     kani::assume(c >= 32 && c < 127);
@@ -202,10 +210,7 @@ fn any_spec() -> OpDeclSpec {
     }
 }
 
-#[kani::proof]
-#[kani::unwind(12)]
-#[kani::stub(arcu::epoch_counters::with_thread_local_epoch_counter, st_epoch)]
-fn c55_needs_bracketing_sufficient() {
+fn needs_bracketing_body(minus: bool) {
     let cp: u16 = kani::any();
     let pp: u16 = kani::any();
     kani::assume(cp <= 1200 && pp <= 1200);
@@ -213,7 +218,6 @@ fn c55_needs_bracketing_sufficient() {
     let ps = any_spec();
     let child = OpDesc::build_with(cp, cs);
     let parent = OpDesc::build_with(pp, ps);
-    let minus: bool = kani::any();
     let name = if minus { atom!("-") } else { atom!("+") };
     // child as the right-hand / only-after argument of the parent operator
     let right_bound = if matches!(ps, XFX | YFX | FX) { pp as i32 - 1 } else { pp as i32 };
@@ -234,4 +238,18 @@ fn c55_needs_bracketing_sufficient() {
     }
     kani::cover!(got_r && !got_l);
     kani::cover!(got_l && !got_r);
+}
+
+#[kani::proof]
+#[kani::unwind(12)]
+#[kani::stub(arcu::epoch_counters::with_thread_local_epoch_counter, st_epoch)]
+fn c55_needs_bracketing_plus() {
+    needs_bracketing_body(false);
+}
+
+#[kani::proof]
+#[kani::unwind(12)]
+#[kani::stub(arcu::epoch_counters::with_thread_local_epoch_counter, st_epoch)]
+fn c55_needs_bracketing_minus() {
+    needs_bracketing_body(true);
 }
